@@ -130,6 +130,14 @@ func (l *Layout) spNoTab() string {
 	return " "
 }
 
+// lastLine: the last line of a text file need not end with a newline.
+func (l *Layout) lastLine(text string) string {
+	if l.coin(0.3) {
+		return strings.TrimSuffix(text, "\n")
+	}
+	return text
+}
+
 // OPB prints an OPB (linear, small integers) file: optional objective, then constraints.
 func OPB(n int, hasObj bool, objTerms []Term, cons []Lin, l *Layout) string {
 	var b strings.Builder
@@ -161,7 +169,7 @@ func OPB(n int, hasObj bool, objTerms []Term, cons []Lin, l *Layout) string {
 		b.WriteString(fmt.Sprintf("%s%s%s%s%s;", l.spNoTab(), c.Rel, l.spNoTab(), rhs, l.spNoTab()))
 		b.WriteString("\n")
 	}
-	return b.String()
+	return l.lastLine(b.String())
 }
 
 // A WClause is a weighted clause of a WCNF file; Hard clauses are printed with the top weight.
@@ -197,5 +205,5 @@ func WCNF(n int, top int, clauses []WClause, l *Layout) string {
 		}
 		b.WriteString(l.spNoTab() + "0\n")
 	}
-	return b.String()
+	return l.lastLine(b.String())
 }
